@@ -114,6 +114,33 @@ def translate():
     lo2, hi2 = bound(r2.value.left, True), bound(r2.value.right, True)
     need(lo1 == lo2 and hi1 == hi2, r2, "1-D and 2-D bounds differ", w2)
     # which of the two is the lower / upper bound is decided by Link (a && b must equal in_unit)
+    # the designations travel to the runners positionally: at every hop the arguments are passed under the callee's own parameter
+    # names, in the callee's order (a swap of two same-typed arguments such as periodic / reflective changes nothing else)
+    tree_all = ast.parse(path.read_text())
+    fdefs = {n.name: n for n in ast.walk(tree_all) if isinstance(n, ast.FunctionDef)}
+    base_init = next(m for c in ast.walk(tree_all) if isinstance(c, ast.ClassDef) and c.name == "BaseMCMCRunner"
+                     for m in c.body if isinstance(m, ast.FunctionDef) and m.name == "__init__")
+    hops = [("parallel_mcmc", "parallel_random_walk_metropolis", fdefs["parallel_random_walk_metropolis"]),
+            ("parallel_mcmc", "parallel_t_preconditioned_crank_nicolson", fdefs["parallel_t_preconditioned_crank_nicolson"]),
+            ("parallel_random_walk_metropolis", "RWMRunner", base_init), ("parallel_t_preconditioned_crank_nicolson", "TPCNRunner", base_init)]
+    for caller, callee, cdef in hops:
+        params = [a.arg for a in cdef.args.args if a.arg != "self"]
+        calls = [c for c in ast.walk(fdefs[caller]) if isinstance(c, ast.Call) and _nospace(c.func) == callee]
+        need(len(calls) == 1, fdefs[caller], f"one call of {callee} in {caller}", "mcmc.py")
+        c = calls[0]
+        names = [a.id if isinstance(a, ast.Name) else None for a in c.args]
+        need(names == params[:len(names)] and all(kw.arg == _nospace(kw.value) for kw in c.keywords)
+             and {"periodic", "reflective"} <= set(names) | {kw.arg for kw in c.keywords}, c,
+             f"{caller} -> {callee}: arguments {names} for parameters {params}", "mcmc.py")
+    for cls_name in ("RWMRunner", "TPCNRunner"):
+        ini = next(m for c in ast.walk(tree_all) if isinstance(c, ast.ClassDef) and c.name == cls_name
+                   for m in c.body if isinstance(m, ast.FunctionDef) and m.name == "__init__")
+        first = strip_doc(ini.body)[0]
+        need(_nospace(first) == "super().__init__(*args,**kwargs)", ini, f"{cls_name} forwards its arguments unchanged", "mcmc.py")
+    need("self.periodic=periodic" in _nospace(base_init) and "self.reflective=reflective" in _nospace(base_init), base_init,
+         "the runner stores the designations under their own names", "mcmc.py")
+    mu_run = _nospace(get_function(REPO / "tempest" / "steps" / "mutate.py", "Mutator.run"))
+    need("periodic=self.periodic," in mu_run and "reflective=self.reflective," in mu_run, base_init, "Mutator passes its designations by keyword", "mutate.py")
     text = f"""(* GENERATED from /repo/tempest/mcmc.py (apply_boundary_conditions, check_bounds) by tools/props/c16.py *)
 From Coq Require Import List Bool Arith.
 From Tempest Require Import Base.Ops.
@@ -127,6 +154,7 @@ Definition fold_odd_branch {{T}} (o : Ops T) (remainder : T) : T := {odd_branch}
 Definition bound_a {{T}} (o : Ops T) (v : T) : bool := {lo1}.
 Definition bound_b {{T}} (o : Ops T) (v : T) : bool := {hi1}.
 Definition strict_is_complement_of_designated : bool := true.
+Definition designations_reach_the_runners_under_their_own_names : bool := true.
 """
     write_if_changed(COQ / "Gen" / "Boundary.v", text)
 
